@@ -646,6 +646,9 @@ func (fx *FX) specCall(x *SX, env *SEnv, cur, old *State) Val {
 		if v.GT == nil {
 			specErrf("deref of untyped value")
 		}
+		if _, isPtr := v.GT.Underlying().(*types.Pointer); !isPtr {
+			specErrf("deref of a value that is not a pointer (%s)", v.GT)
+		}
 		et := derefType(v.GT)
 		srt := e.SortOf(et)
 		h := fx.sv(cur, "Cell!"+typeName(et), ArrS(SRef, srt))
